@@ -235,62 +235,71 @@ theorem C17_self_contained_schema_one_pass (os order : List Pass.Obj) (n : Nat) 
   have := (Pass.sweeps_good os order n _ h).2
   simp [Pass.suffixes, this]
 
-/-- When the sweep loop of `checkTypes` stops (condition regenerated: `sweepLoop`), **every** type of the schema has
-    been decided and none is CANTPROCESS — all of them are CANPROCESS on entry to `SCOPEPrint`, which is what the
-    file-set theorems above assume.  Holds because the loop runs `while( unknowncnt > 0 )` and `unknowncnt` counts every
-    object a sweep leaves NOTKNOWN (`sweep_counts`); a loop that may also stop after a bounded number of sweeps
-    does not have this property (witness below).  Nothing is claimed about *whether* the loop stops: it does not for
-    selects that contain each other through aggregates (`C17_select_cycle_never_settles_witness`, a recorded finding). -/
-theorem C17_loop_exit_means_all_types_decided (os order : List Pass.Obj) (k : Nat)
-    (hexit : Pass.loopMayExit Generated.CxxPass.sweepLoop (k + 1)
-              (Pass.loopState Generated.CxxPass.enumLastCase os order (k + 1))) :
-    ∀ o ∈ order, (Pass.loopState Generated.CxxPass.enumLastCase os order (k + 1)).marks o.name = .canprocess ∨
-                 (Pass.loopState Generated.CxxPass.enumLastCase os order (k + 1)).marks o.name = .processed := by
+/-- When the sweep loop of `checkTypes` has been left (its shape is regenerated: `sweepLoop`), **every** type of the schema
+    has been decided and none is CANTPROCESS — all of them are CANPROCESS on entry to `SCOPEPrint`, which is what the
+    file-set theorems above assume.  Holds for `while( unknowncnt > 0 )` because `unknowncnt` is exactly the number of
+    objects a sweep leaves NOTKNOWN (`sweep_from_zero`), and for the stall exit because it marks what is left; a loop that
+    may also stop after a bounded number of sweeps does not have this property (witness below). -/
+theorem C17_loop_exit_means_all_types_decided (os order : List Pass.Obj) (hnd : (order.map (·.name)).Nodup) (k : Nat)
+    (hexit : (Pass.run Generated.CxxPass.sweepLoop Generated.CxxPass.enumLastCase os order k).exited = true) :
+    ∀ o ∈ order, (Pass.run Generated.CxxPass.sweepLoop Generated.CxxPass.enumLastCase os order k).st.marks o.name = .canprocess ∨
+                 (Pass.run Generated.CxxPass.sweepLoop Generated.CxxPass.enumLastCase os order k).st.marks o.name = .processed := by
   have hc : Generated.CxxPass.enumLastCase = .inSchemaOrProcessed := by decide
-  have hl : Generated.CxxPass.sweepLoop = .untilSettled := by decide
+  have hl : Generated.CxxPass.sweepLoop = .untilSettled ∨ Generated.CxxPass.sweepLoop = .untilSettledOrStalled := by decide
   rw [hc] at hexit ⊢
-  rw [hl] at hexit
-  have hs := Pass.settled_of_unknown_zero os order k hexit
-  have hg := Pass.loopState_good os order (k + 1)
+  have inv := Pass.run_inv _ hl os order hnd k
   intro o ho
-  have h1 := hs o ho
-  have h2 := hg.1 o.name
-  cases hm : (Pass.loopState .inSchemaOrProcessed os order (k + 1)).marks o.name with
+  have h1 := inv.2 hexit o ho
+  have h2 := inv.1.1 o.name
+  cases hm : (Pass.run Generated.CxxPass.sweepLoop .inSchemaOrProcessed os order k).st.marks o.name with
   | notknown => exact absurd hm h1
   | cantprocess => exact absurd hm h2
   | canprocess => exact Or.inl rfl
   | processed => exact Or.inr rfl
 
-/-- … and the schema is still printed once with suffix 0 whenever that loop stops. -/
-theorem C17_self_contained_schema_one_pass_loop (os order : List Pass.Obj) (k : Nat) :
-    Pass.suffixes (Pass.loopState Generated.CxxPass.enumLastCase os order k) = [0] := by
+/-- … and the schema is printed once with suffix 0, at whatever iteration the loop is left. -/
+theorem C17_self_contained_schema_one_pass_loop (os order : List Pass.Obj) (hnd : (order.map (·.name)).Nodup) (k : Nat) :
+    Pass.suffixes (Pass.run Generated.CxxPass.sweepLoop Generated.CxxPass.enumLastCase os order k).st = [0] := by
   have hc : Generated.CxxPass.enumLastCase = .inSchemaOrProcessed := by decide
+  have hl : Generated.CxxPass.sweepLoop = .untilSettled ∨ Generated.CxxPass.sweepLoop = .untilSettledOrStalled := by decide
   rw [hc]
-  simp [Pass.suffixes, (Pass.loopState_good os order k).2]
+  simp [Pass.suffixes, (Pass.run_inv _ hl os order hnd k).1.2]
+
+/-- **Termination.**  The loop that additionally leaves when a sweep ends with the same positive `unknowncnt` as the one
+    before (`SweepLoop.untilSettledOrStalled`, fix C17-1) has been left after at most `n + 2` iterations for EVERY schema
+    with `n` types — `lastunknowncnt` is the number of NOTKNOWN types and strictly decreases while the loop runs
+    (`run_stalled_progress`).  The plain `while( unknowncnt > 0 )` loop has no such bound: see the next witness. -/
+theorem C17_sweep_loop_terminates (os order : List Pass.Obj) (hnd : (order.map (·.name)).Nodup) :
+    (Pass.run .untilSettledOrStalled .inSchemaOrProcessed os order (order.length + 2)).exited = true :=
+  Pass.run_stalled_terminates os order hnd
 
 /-- A loop that gives up after a fixed number of sweeps leaves types undecided: a chain of nested selects visited
-    outermost first needs one sweep per link (here 3 selects, bound 1: the loop may stop, two selects are still NOTKNOWN and
-    are never printed, while the scanner lists their files). -/
+    outermost first needs one sweep per link (here 3 selects, bound 1: the loop is left with two selects still NOTKNOWN,
+    which are never printed, while the scanner lists their files; without the bound it is left after 3 sweeps, all decided). -/
 theorem C17_bounded_sweeps_drop_types_witness :
     let os : List Pass.Obj := [{ name := "s1", isSelect := true, items := ["s2"] },
                                { name := "s2", isSelect := true, items := ["s3"] },
                                { name := "s3", isSelect := true, items := [] }]
-    Pass.loopMayExit (.bounded 1) 1 (Pass.loopState .inSchemaOrProcessed os os 1) ∧
-    (Pass.loopState .inSchemaOrProcessed os os 1).marks "s1" = .notknown ∧
-    (Pass.loopState .inSchemaOrProcessed os os 1).marks "s2" = .notknown ∧
-    (Pass.loopState .inSchemaOrProcessed os os 3).unknown = 0 := by
-  refine ⟨Or.inr (Nat.le_refl 1), by decide, by decide, by decide⟩
+    (Pass.run (.bounded 1) .inSchemaOrProcessed os os 1).exited = true ∧
+    (Pass.run (.bounded 1) .inSchemaOrProcessed os os 1).st.marks "s1" = .notknown ∧
+    (Pass.run (.bounded 1) .inSchemaOrProcessed os os 1).st.marks "s2" = .notknown ∧
+    (Pass.run .untilSettled .inSchemaOrProcessed os os 2).exited = false ∧
+    (Pass.run .untilSettled .inSchemaOrProcessed os os 3).exited = true := by
+  decide
 
 /-- Two selects that contain each other through an aggregate (`TYPE a = SELECT (list_of_b, …)`, `TYPE b = SELECT
-    (list_of_a, …)`; `checkItem` looks through one aggregate level) keep each other NOTKNOWN: after every one of the first
-    iterations `unknowncnt` is 2 again and the marks are as before — the unmodified exp2cxx (and exp2python) never leave
-    the loop.  (Replayed on the real programs with a time limit: input `select-cycle-through-aggregates`.) -/
+    (list_of_a, …)`; `checkItem` looks through one aggregate level) keep each other NOTKNOWN: under `while( unknowncnt > 0 )`
+    the loop has not been left after any of the first iterations, `unknowncnt` is 2 every time — the unfixed exp2cxx and
+    exp2python never return (replayed with a time limit: input `select-cycle-through-aggregates`).  The stall-detecting loop
+    is left at its second iteration with both selects CANPROCESS. -/
 theorem C17_select_cycle_never_settles_witness :
     let os : List Pass.Obj := [{ name := "a", isSelect := true, items := ["b"] },
                                { name := "b", isSelect := true, items := ["a"] }]
-    ∀ k ∈ [1, 2, 3, 4, 5, 6], (Pass.loopState .inSchemaOrProcessed os os k).unknown = 2 ∧
-      (Pass.loopState .inSchemaOrProcessed os os k).marks "a" = .notknown ∧
-      (Pass.loopState .inSchemaOrProcessed os os k).marks "b" = .notknown := by
+    (∀ k ∈ [1, 2, 3, 4, 5, 6], (Pass.run .untilSettled .inSchemaOrProcessed os os k).exited = false ∧
+        (Pass.run .untilSettled .inSchemaOrProcessed os os k).st.unknown = 2) ∧
+    (Pass.run .untilSettledOrStalled .inSchemaOrProcessed os os 2).exited = true ∧
+    (Pass.run .untilSettledOrStalled .inSchemaOrProcessed os os 2).st.marks "a" = .canprocess ∧
+    (Pass.run .untilSettledOrStalled .inSchemaOrProcessed os os 2).st.marks "b" = .canprocess := by
   decide
 
 /-- Why that case matters: with `return ( a->search_id >= CANPROCESS )` as last case, a select visited before a renamed
